@@ -440,7 +440,7 @@ func TestC17Equality(t *testing.T) {
 
 		aspects := []string{"none", "type-name", "attr-name", "value", "id", "extra-attr", "extra-rel", "attr-kind"}
 		if len(ts.Rels) > 0 {
-			aspects = append(aspects, "rel-name", "rel-value", "rel-inverse", "attr-for-rel")
+			aspects = append(aspects, "rel-name", "rel-value", "rel-inverse", "attr-for-rel", "rel-cardinality")
 		}
 
 		if !aWrapped && !bWrapped {
@@ -498,6 +498,26 @@ func TestC17Equality(t *testing.T) {
 			ts.Attrs[i].Type, ts.Attrs[i].Nullable = pair.k1, false
 			ts2.Attrs[i].Type, ts2.Attrs[i].Nullable = pair.k2, false
 			vals[ts.Attrs[i].Name], vals2[ts.Attrs[i].Name] = pair.v1, pair.v2
+			a = build(ts, vals, aWrapped)
+		case "rel-cardinality":
+			// The same relationship name, to-one here and to-many there,
+			// holding the same ID (or none).
+			i := rapid.IntRange(0, len(ts2.Rels)-1).Draw(t, "i")
+			ts.Rels = append([]jsonapi.Rel{}, ts.Rels...)
+			name := ts.Rels[i].FromName
+			ts.Rels[i].ToOne, ts2.Rels[i].ToOne = true, false
+
+			if rapid.Bool().Draw(t, "cardinality-empty") {
+				vals[name], vals2[name] = "", []string{}
+			} else {
+				vals[name], vals2[name] = "u1", []string{"u1"}
+			}
+
+			if rapid.Bool().Draw(t, "cardinality-swap") {
+				ts.Rels[i].ToOne, ts2.Rels[i].ToOne = false, true
+				vals[name], vals2[name] = vals2[name], vals[name]
+			}
+
 			a = build(ts, vals, aWrapped)
 		case "attr-for-rel":
 			// As many fields on both sides, one of them a relationship here
